@@ -208,6 +208,25 @@ func (c *C14) Run(x *engine.Ctx) *engine.Violation {
 			w.AddConn(cc)
 		}
 	}
+	if !bare && w.StopAfterBegun >= 0 && w.Cycles == 1 && t.Chance(1, 3) {
+		// the metrics listener serves requests too: a scrape whose (legal) small request body is still being
+		// uploaded when the stop is requested - net/http holds the response back until the body is in, so the
+		// request is accepted and unanswered across the stop; it is owed its full response like any other
+		sr := service.MetricsScrape()
+		body := []byte(`{"scraper":"liveness-probe","interval":"15s"}`)
+		sr.Body = body
+		sr.Raw = service.RawRequest("GET", "/metrics", body, service.FrameCL)
+		sr.Kind = "scrape/slow-body-across-the-stop"
+		if head := bytes.Index(sr.Raw, []byte("\r\n\r\n")) + 4; head >= 4 {
+			mc := &service.ClientConn{Addr: service.MetricsAddr, Reqs: []*service.Request{sr}, StartStep: 56 + t.Draw(30), FreezeAt: head + 1 + t.Draw(len(body)-2)}
+			if w.ThawAfter == 0 {
+				w.ThawAfter = 2 + t.Draw(6)
+			}
+			sim.MaxSteps += 800
+			w.AddConn(mc)
+			x.S.Count("fault:net/slow-metrics-scrape-stalled-across-the-stop")
+		}
+	}
 	leak := runWorld(x, sim, w, c.sys.Mode)
 	op := w.Op()
 	x.S.Eval(int64(op.CyclesDone))
